@@ -346,7 +346,7 @@ func branch(a string, cond int, targets ...string) Call {
 // template families
 
 // universe of a type parameter in a tier
-func allTypes() []int { return []int{tString, tInt, tA, tPB, tI1, tI2, tAny, tMap} }
+func allTypes() []int { return []int{tString, tInt, tA, tPB, tI1, tI2, tAny, tMap, tNMap} }
 
 // small universe: two concretes, one implementing struct, both interfaces' representatives
 func fewTypes() []int { return []int{tString, tInt, tA, tI1, tAny} }
